@@ -503,6 +503,193 @@ Example C04_leaf_alpha_concrete :
   flt (b32_of_bits 1065353216) (Binary.B754_zero 24 128 false) = false.
 Proof. repeat split; vm_compute; reflexivity. Qed.
 
+(* ---- (10) the acceptance statistic of the FLOAT computation lies in [0,1] (the hypothesis `0 <= a <= 1` of
+   the C04_hbar_bounds theorems): for every IEEE format (prec, emax), round to nearest even, (a) the term a leaf contributes
+   is a finite number in [0,1] whatever exp returned (NaN, +inf, or a non-negative finite number); (b) the
+   tree-ordered float sum alpha' + alpha'' over a sub-tree of depth j with 2^j <= 2^prec is a finite number
+   in [0, n_alpha]; (c) alpha / (n_alpha as T) is a finite number in [0,1].  Proofs/AlphaRange.v ---- *)
+From MiniMcmc Require Import Model.NUTS Proofs.AlphaRange.
+Section C04_alpha_range.
+  Variables prec emax : Z.
+  Context (Hprec : FLX.Prec_gt_0 prec) (Hmax : BinarySingleNaN.Prec_lt_emax prec emax).
+  Notation fl := (binary_float prec emax).
+  Variable nanf : fl -> fl -> { x : fl | Binary.is_nan prec emax x = true }.
+  Variable one : fl.
+  Hypothesis one_finite : Binary.is_finite prec emax one = true.
+  Hypothesis one_value : Binary.B2R prec emax one = 1%R.
+
+  Theorem C04_leaf_term_range : forall r : fl,
+    fnan r = true \/ r = Binary.B754_infinity prec emax false \/
+    (Binary.is_finite prec emax r = true /\ (0 <= Binary.B2R prec emax r)%R) ->
+    Binary.is_finite prec emax (leaf_alpha one r) = true /\
+    (0 <= Binary.B2R prec emax (leaf_alpha one r) <= 1)%R.
+  Proof. exact (leaf_alpha_range prec emax one one_finite one_value). Qed.
+
+  (* one float addition of two partial sums bounded by integer counts *)
+  Theorem C04_alpha_add_range : forall (x y : fl) (a b : Z),
+    Binary.is_finite prec emax x = true -> Binary.is_finite prec emax y = true ->
+    (0 <= a)%Z -> (0 <= b)%Z -> (a + b <= 2 ^ prec)%Z ->
+    (0 <= Binary.B2R prec emax x <= IZR a)%R -> (0 <= Binary.B2R prec emax y <= IZR b)%R ->
+    Binary.is_finite prec emax (fplus nanf x y) = true /\
+    (0 <= Binary.B2R prec emax (fplus nanf x y) <= IZR (a + b))%R.
+  Proof. exact (fplus_range prec emax Hprec Hmax nanf). Qed.
+
+  (* the quotient by the exactly converted count *)
+  Theorem C04_count_quotient_range : forall (s : fl) (n : nat),
+    Binary.is_finite prec emax s = true -> (0 <= Binary.B2R prec emax s <= INR n)%R ->
+    (1 <= n)%nat -> (Z.of_nat n <= 2 ^ prec)%Z ->
+    let nf := Binary.binary_normalize prec emax Hprec Hmax mode_NE (Z.of_nat n) 0 false in
+    (Binary.is_finite prec emax nf = true /\ Binary.B2R prec emax nf = INR n) /\
+    Binary.is_finite prec emax (fdiv nanf s nf) = true /\
+    (0 <= Binary.B2R prec emax (fdiv nanf s nf) <= 1)%R.
+  Proof.
+    intros s n Fs Hs Hn1 Hn nf. split.
+    - exact (nat_fl_exact prec emax Hprec Hmax n Hn).
+    - exact (fdiv_count_range prec emax Hprec Hmax nanf s n Fs Hs Hn1 Hn).
+  Qed.
+
+  Section Tree.
+    Context {P F U : Type}.
+    Variable leap : bool -> P -> P.
+    Variable joint : P -> F.
+    Variable noturn : P -> P -> bool.
+    Variable fltF : F -> F -> bool.
+    Variable sub1000 : F -> F.
+    Variable take2 : U -> nat -> nat -> bool.
+    Variable logu : F.
+
+    Section AnyLeafTerm.
+      Variable alpha1 : P -> fl.
+      Hypothesis Halpha : forall z,
+        Binary.is_finite prec emax (alpha1 z) = true /\ (0 <= Binary.B2R prec emax (alpha1 z) <= 1)%R.
+
+      Theorem C04_alpha_sum_range : forall j z v us t us',
+        build_tree leap joint noturn fltF sub1000 alpha1 (fplus nanf) take2 logu j z v us = Some (t, us') ->
+        (2 ^ Z.of_nat j <= 2 ^ prec)%Z ->
+        (1 <= tnalpha t <= 2 ^ j)%nat /\
+        Binary.is_finite prec emax (talpha t) = true /\
+        (0 <= Binary.B2R prec emax (talpha t) <= INR (tnalpha t))%R.
+      Proof.
+        intros j z v us t us' H Hj. split.
+        - exact (build_tree_tnalpha_bounds prec emax Hprec Hmax nanf leap joint noturn fltF sub1000 alpha1
+                   take2 logu _ _ _ _ _ _ H).
+        - exact (build_tree_talpha_range prec emax Hprec Hmax nanf leap joint noturn fltF sub1000 alpha1
+                   take2 logu Halpha _ _ _ _ _ _ H Hj).
+      Qed.
+
+      Theorem C04_acceptance_statistic_range : forall j z v us t us',
+        build_tree leap joint noturn fltF sub1000 alpha1 (fplus nanf) take2 logu j z v us = Some (t, us') ->
+        (2 ^ Z.of_nat j <= 2 ^ prec)%Z ->
+        let n_alpha_as_T :=
+          Binary.binary_normalize prec emax Hprec Hmax mode_NE (Z.of_nat (tnalpha t)) 0 false in
+        Binary.is_finite prec emax (fdiv nanf (talpha t) n_alpha_as_T) = true /\
+        (0 <= Binary.B2R prec emax (fdiv nanf (talpha t) n_alpha_as_T) <= 1)%R.
+      Proof.
+        intros j z v us t us' H Hj.
+        exact (acceptance_statistic_in_unit_interval prec emax Hprec Hmax nanf leap joint noturn fltF sub1000
+                 alpha1 take2 logu Halpha _ _ _ _ _ _ H Hj).
+      Qed.
+    End AnyLeafTerm.
+
+    (* with the leaf rule of the code: alpha1 z = leaf_alpha 1 (ratio z), ratio z = whatever exp returned *)
+    Variable ratio : P -> fl.
+    Hypothesis Hratio : forall z,
+      fnan (ratio z) = true \/ ratio z = Binary.B754_infinity prec emax false \/
+      (Binary.is_finite prec emax (ratio z) = true /\ (0 <= Binary.B2R prec emax (ratio z))%R).
+
+    Theorem C04_acceptance_statistic_leaf_rule : forall j z v us t us',
+      build_tree leap joint noturn fltF sub1000 (fun p => leaf_alpha one (ratio p)) (fplus nanf) take2 logu
+        j z v us = Some (t, us') ->
+      (2 ^ Z.of_nat j <= 2 ^ prec)%Z ->
+      let n_alpha_as_T :=
+        Binary.binary_normalize prec emax Hprec Hmax mode_NE (Z.of_nat (tnalpha t)) 0 false in
+      (Binary.is_finite prec emax (talpha t) = true /\
+       (0 <= Binary.B2R prec emax (talpha t) <= INR (tnalpha t))%R) /\
+      Binary.is_finite prec emax (fdiv nanf (talpha t) n_alpha_as_T) = true /\
+      (0 <= Binary.B2R prec emax (fdiv nanf (talpha t) n_alpha_as_T) <= 1)%R.
+    Proof.
+      intros j z v us t us' H Hj.
+      exact (acceptance_statistic_leaf_rule prec emax Hprec Hmax nanf leap joint noturn fltF sub1000 ratio
+               take2 logu one one_finite one_value Hratio _ _ _ _ _ _ H Hj).
+    Qed.
+  End Tree.
+End C04_alpha_range.
+
+(* binary32 (prec 24, emax 128): 1.0f32 = bits 1065353216 is finite with value 1, so the hypotheses on `one` hold;
+   a depth-2 tree whose four leaves contribute 0.5, 1, 0.5, 1 meets every hypothesis of
+   C04_acceptance_statistic_range; its float sum is 3.0f32 (bits 1077936128), n_alpha = 4 and the statistic is
+   0.75f32 (bits 1061158912), inside [0,1] as the theorem says *)
+Definition c04_one32 : binary32 := Binary.B754_finite 24 128 false 8388608 (-23) eq_refl.
+Definition c04_half32 : binary32 := Binary.B754_finite 24 128 false 8388608 (-24) eq_refl.
+Lemma c04_one32_bits : b32_of_bits 1065353216 = c04_one32.
+Proof. exact (binary_float_of_bits_of_binary_float 23 8 eq_refl eq_refl eq_refl c04_one32). Qed.
+Lemma c04_one32_R : Binary.B2R 24 128 c04_one32 = 1%R.
+Proof.
+  unfold c04_one32, Binary.B2R, Defs.F2R.
+  cbn [Defs.Fnum Defs.Fexp cond_Zopp Raux.bpow Z.pow_pos Pos.iter radix_val radix2 Z.mul Pos.mul]. Lra.lra.
+Qed.
+Lemma c04_half32_R : Binary.B2R 24 128 c04_half32 = (/ 2)%R.
+Proof.
+  unfold c04_half32, Binary.B2R, Defs.F2R.
+  cbn [Defs.Fnum Defs.Fexp cond_Zopp Raux.bpow Z.pow_pos Pos.iter radix_val radix2 Z.mul Pos.mul]. Lra.lra.
+Qed.
+Definition c04_alpha32 (p : nat) : binary32 := if Nat.even p then c04_one32 else c04_half32.
+Definition c04_bt32 : option (@tree nat binary32 * list unit) :=
+  build_tree (fun (_ : bool) (p : nat) => S p) (fun _ : nat => tt) (fun _ _ : nat => true)
+    (fun _ _ : unit => true) (fun u : unit => u) c04_alpha32 (fplus binop_nan_pl32)
+    (fun (_ : unit) (_ _ : nat) => false) tt 2 0%nat true [tt; tt; tt].
+
+Example C04_alpha_range_binary32 :
+  Binary.is_finite 24 128 (b32_of_bits 1065353216) = true /\
+  Binary.B2R 24 128 (b32_of_bits 1065353216) = 1%R /\
+  (forall r : binary32,
+     fnan r = true \/ r = Binary.B754_infinity 24 128 false \/
+     (Binary.is_finite 24 128 r = true /\ (0 <= Binary.B2R 24 128 r)%R) ->
+     Binary.is_finite 24 128 (leaf_alpha (b32_of_bits 1065353216) r) = true /\
+     (0 <= Binary.B2R 24 128 (leaf_alpha (b32_of_bits 1065353216) r) <= 1)%R) /\
+  (forall p, Binary.is_finite 24 128 (c04_alpha32 p) = true /\
+             (0 <= Binary.B2R 24 128 (c04_alpha32 p) <= 1)%R) /\
+  (2 ^ Z.of_nat 2 <= 2 ^ 24)%Z /\
+  match c04_bt32 with
+  | Some (t, _) =>
+      let q := fdiv binop_nan_pl32 (talpha t)
+                 (Binary.binary_normalize 24 128 prec32 emax32 mode_NE (Z.of_nat (tnalpha t)) 0 false) in
+      tnalpha t = 4%nat /\ bits_of_b32 (talpha t) = 1077936128%Z /\ bits_of_b32 q = 1061158912%Z /\
+      Binary.is_finite 24 128 (talpha t) = true /\
+      (0 <= Binary.B2R 24 128 (talpha t) <= INR (tnalpha t))%R /\
+      Binary.is_finite 24 128 q = true /\ (0 <= Binary.B2R 24 128 q <= 1)%R
+  | None => False
+  end.
+Proof.
+  assert (F1 : Binary.is_finite 24 128 (b32_of_bits 1065353216) = true) by (vm_compute; reflexivity).
+  assert (V1 : Binary.B2R 24 128 (b32_of_bits 1065353216) = 1%R)
+    by (rewrite c04_one32_bits; exact c04_one32_R).
+  assert (Ha : forall p, Binary.is_finite 24 128 (c04_alpha32 p) = true /\
+                         (0 <= Binary.B2R 24 128 (c04_alpha32 p) <= 1)%R).
+  { intros p. unfold c04_alpha32. destruct (Nat.even p).
+    - split; [reflexivity|]. rewrite c04_one32_R. Lra.lra.
+    - split; [reflexivity|]. rewrite c04_half32_R. Lra.lra. }
+  assert (Hj : (2 ^ Z.of_nat 2 <= 2 ^ 24)%Z) by (vm_compute; discriminate).
+  split; [exact F1|]. split; [exact V1|].
+  split; [exact (C04_leaf_term_range 24 128 (b32_of_bits 1065353216) F1 V1)|].
+  split; [exact Ha|]. split; [exact Hj|].
+  assert (Hc : match c04_bt32 with
+               | Some (t, _) =>
+                   tnalpha t = 4%nat /\ bits_of_b32 (talpha t) = 1077936128%Z /\
+                   bits_of_b32 (fdiv binop_nan_pl32 (talpha t)
+                      (Binary.binary_normalize 24 128 prec32 emax32 mode_NE (Z.of_nat (tnalpha t)) 0 false))
+                   = 1061158912%Z
+               | None => False
+               end) by (vm_compute; repeat split; reflexivity).
+  destruct c04_bt32 as [[t us']|] eqn:E; [|exact Hc].
+  unfold c04_bt32 in E. destruct Hc as (Hn & Hs & Hq).
+  destruct (C04_alpha_sum_range 24 128 prec32 emax32 binop_nan_pl32 _ _ _ _ _ _ _ c04_alpha32 Ha
+              _ _ _ _ _ _ E Hj) as (_ & Fs & Rs).
+  destruct (C04_acceptance_statistic_range 24 128 prec32 emax32 binop_nan_pl32 _ _ _ _ _ _ _ c04_alpha32 Ha
+              _ _ _ _ _ _ E Hj) as (Fq & Rq).
+  cbv zeta. repeat split; try assumption; try (apply Rs); try (apply Rq).
+Qed.
+
 Print Assumptions C04_warmup_closed_form.
 Print Assumptions C04_warmup_exp_form.
 Print Assumptions C04_hbar_update.
@@ -545,3 +732,10 @@ Print Assumptions C04_find_eps_x_example.
 Print Assumptions C04_leaf_alpha.
 Print Assumptions C04_leaf_alpha_old_refuted.
 Print Assumptions C04_leaf_alpha_concrete.
+Print Assumptions C04_leaf_term_range.
+Print Assumptions C04_alpha_add_range.
+Print Assumptions C04_count_quotient_range.
+Print Assumptions C04_alpha_sum_range.
+Print Assumptions C04_acceptance_statistic_range.
+Print Assumptions C04_acceptance_statistic_leaf_rule.
+Print Assumptions C04_alpha_range_binary32.
